@@ -199,9 +199,21 @@ def drive(v, prop, seed, runs, tier, relevant=None):
             else:
                 v.notes.setdefault("deviations_in_other_properties", []).append(f)
             continue
+        # the futex-based thread event every blocked synchronous caller sleeps on (ThreadEventTrace.tla)
+        te = validate_trace("ThreadEventTrace.tla", "ThreadEventTrace.cfg", tr, nthreads=nt, metaname="%s_te%d" % (prop, i))
+        if not te.accepted:
+            te = validate_trace("ThreadEventTrace.tla", "ThreadEventTrace.cfg", tr, nthreads=nt, metaname="%s_te%db" % (prop, i))
+        if not te.accepted:
+            lines = open(te.trace_with_header).read().splitlines()
+            k = te.maxl or 1
+            p = save_replay(prop, "thread_event_rejected_%d.ndjson" % s, src=te.trace_with_header)
+            v.violation("thread-event protocol (%s): record %d is not a step ThreadEventTrace.tla allows (%s): %s" %
+                        (desc, k, te.violated or "e.g. a waiter returned without re-loading the value after a futex wake-up",
+                         lines[k - 1][:300] if k - 1 < len(lines) else ""), p)
+            continue
         v.traces += 1
-        v.states += res.distinct
-        v.transitions += res.generated
+        v.states += res.distinct + te.distinct
+        v.transitions += res.generated + te.generated
         m = re.search(r'<<"DRIFT", (\d+)>>', res.out)
         if m and int(m.group(1)) > 0:
             v.drift.append("%s dq_state accesses from functions unknown to the spec were explained by other operators" % m.group(1))
